@@ -59,6 +59,17 @@ def run(chk):
         ls = gen_poly.make_cases(chk.seed * 1000 + 1100 + i, max(per // 2, 3), maxdim=maxdim, nobj=2, steps=2, ops=[op], pq=0.0, pobs=0.1, start=cid,
                                  special=0.9, special_kinds=["pending_gens", "pending_cons", "pending_gens"])
         lines += ls; cid += max(per // 2, 3)
+        # non-pointed / lower-dimensional operands (lines, implicit equalities)
+        ls = gen_poly.make_cases(chk.seed * 1000 + 1400 + i, max(per // 2, 3), maxdim=maxdim, nobj=2, steps=2, ops=[op], pq=0.0, pobs=0.1, start=cid,
+                                 special=0.8, special_kinds=["line", "line", "lowdim"])
+        lines += ls; cid += max(per // 2, 3)
+    # dimension-changing operators in higher dimension (permutations with several cycles, folds of several
+    # dimensions, concatenations): the references are renamings, cheap for the verified deciders
+    hd = 40 if chk.quick else 600
+    lines += gen_poly.make_cases(chk.seed * 1000 + 1700, hd, maxdim=5, nobj=2, steps=3, pq=0.0, pobs=0.2, start=cid, thin=True,
+                                 ops=["map_space_dimensions", "remove_space_dimensions", "remove_higher_space_dimensions", "expand_space_dimension",
+                                      "fold_space_dimensions", "add_space_dimensions_and_embed", "add_space_dimensions_and_project", "concatenate_assign"])
+    cid += hd
     lines += gen_poly.make_cases(chk.seed * 7919 + 17, ncase - cid if ncase > cid else 50, maxdim=maxdim, nobj=3, steps=6, pq=0.1, pobs=0.2, start=cid)
     # corpus first
     cdir = os.path.join(common.VERIF, "corpus", "C02")
